@@ -103,6 +103,17 @@ func genRigCase(r *rng.R) rigIn {
 				verb = "POST"
 			}
 			m := pMethod{Name: fmt.Sprintf("Op%d_%d", ci, mi), File: c.File}
+			// what the operation itself does: most succeed silently; some set a status of their own (the routers must
+			// answer with it, and with the same body - none, for an operation without a value), some fail
+			switch r.Intn(8) {
+			case 0, 1:
+				m.SetStatus = rng.Pick(r, []int{200, 201, 202, 205, 206, 299})
+			case 2:
+				m.Fail = true
+			case 3:
+				m.Fail = true
+				m.SetStatus = rng.Pick(r, []int{400, 409, 503})
+			}
 			params := []rigParam{}
 			segs := []string{fmt.Sprintf("r%d_%d", ci, mi)}
 			leadUsed := false
